@@ -4679,3 +4679,136 @@ def do3(m, run):
            'no setter rejects an intermediate state; every object ends consistent' if not bad else
            'degree %d, %d segment(s), %s: %s   [%d of %d cases]' % (bad[0][0][0], bad[0][0][1], 'elevation by %d' % bad[0][0][2] if bad[0][0][2] > 0 else 'reduction', bad[0][1], len(bad), n),
            'geomdl/operations.py:%d in %s' % (fi.node.lineno, fi.key))
+
+
+# ====================================================================================== C09 / C19: the three control point views through the real setters
+def ws5(m, run, rule='WS5.views-agree-through-the-real-setters'):
+    """WS5: a rational curve, surface (non-square) and volume are built by interpreting the classes' own constructors; with exact symbolic
+    data the three views are then driven through the real accessors: (a) after ctrlptsw = Pw the getters give ctrlpts[i][c] = Pw[i][c] /
+    Pw[i][-1] and weights[i] = Pw[i][-1]; (b) after ctrlpts = Y the weights are kept and ctrlptsw[i] = (Y[i] w_i, w_i); (c) after
+    weights = V the points are kept and ctrlptsw[i] = (Y[i] V_i, V_i); (d) on a fresh object ctrlpts = Y gives unit weights; (b', c') the same when no view was read since the last assignment (empty caches); (e) a list
+    obtained from the ctrlpts / weights getter, edited in place and assigned back is stored (not dropped as "unchanged"); (f) every getter
+    re-reads after every assignment (no stale cached view)"""
+    from .skel import Sym
+    from .poly import Poly
+    cases = (('Curve', (2,), (4,)), ('Surface', (2, 1), (3, 4)), ('Volume', (1, 2, 1), (2, 3, 2)))
+    for cname, degs, sizes in cases:
+        pdim = len(degs)
+        total = 1
+        for s_ in sizes:
+            total *= s_
+        key = 'NURBS.%s :: ctrlptsw / ctrlpts / weights' % cname
+        why = None
+        ab = dict(STD_ABSTRACTED)
+        sk = SK(m, ab)
+        sk.exact = True
+        sk.construct = True
+        suffix = [''] if pdim == 1 else ['_' + 'uvw'[d] for d in range(pdim)]
+
+        def setp(obj, name, value):
+            fi_ = m.lookup(obj._cls, name, 'setters')
+            if fi_ is None:
+                raise AnalysisError('%s: no setter %s' % (key, name))
+            sk.call(fi_, [obj, value], {})
+
+        def getp(obj, name):
+            fi_ = m.lookup(obj._cls, name, 'getters')
+            if fi_ is None:
+                raise AnalysisError('%s: no getter %s' % (key, name))
+            return sk.call(fi_, [obj], {})
+
+        def fresh():
+            o = sk.apply(('class', ('NURBS', cname)), [], {}, None)
+            for d in range(pdim):
+                setp(o, 'degree' + suffix[d], degs[d])
+            if pdim > 1:
+                # the sizes are what set_ctrlpts / the ctrlpts setter of surfaces and volumes need beforehand
+                for d in range(pdim):
+                    o._a['_control_points_size'][d] = sizes[d]
+            return o
+
+        def sym(x):
+            return _as_sym(x)
+
+        def view_is(obj, what, pts_want, w_want):
+            """ctrlptsw, ctrlpts and weights of obj, read through the getters, are exactly the given ones"""
+            pw = getp(obj, 'ctrlptsw')
+            cp = getp(obj, 'ctrlpts')
+            ww = getp(obj, 'weights')
+            if pdim > 1 and list(obj._a['_control_points_size']) != list(sizes):
+                return '%s: the sizes of the net read %r, expected %r (the net is re-interpreted with exchanged directions)' % (what, list(obj._a['_control_points_size']), list(sizes))
+            if len(pw) != total or len(cp) != total or len(ww) != total:
+                return '%s: the views have %d / %d / %d entries, expected %d' % (what, len(pw), len(cp), len(ww), total)
+            for i in range(total):
+                w_ = sym(ww[i])
+                if w_ is None or not w_.same(Sym(w_want[i])):
+                    return '%s: weights[%d] reads %r, expected %r' % (what, i, ww[i], w_want[i])
+                if len(cp[i]) != 3 or len(pw[i]) != 4:
+                    return '%s: ctrlpts[%d] has %d coordinates, ctrlptsw[%d] has %d' % (what, i, len(cp[i]), i, len(pw[i]))
+                for c in range(3):
+                    a_ = sym(cp[i][c])
+                    if a_ is None or not a_.same(Sym(pts_want[i][c])):
+                        return '%s: ctrlpts[%d][%d] reads %r, expected %r' % (what, i, c, cp[i][c], pts_want[i][c])
+                    b_ = sym(pw[i][c])
+                    if b_ is None or not b_.same(Sym(pts_want[i][c] * w_want[i])):
+                        return '%s: ctrlptsw[%d][%d] reads %r, expected %r' % (what, i, c, pw[i][c], pts_want[i][c] * w_want[i])
+                b_ = sym(pw[i][3])
+                if b_ is None or not b_.same(Sym(w_want[i])):
+                    return '%s: ctrlptsw[%d][-1] reads %r, expected %r' % (what, i, pw[i][3], w_want[i])
+            return None
+        try:
+            X = [[Poly.atom('X%d_%d' % (i, c)) for c in range(3)] for i in range(total)]
+            W = [Poly.atom('W%d' % i) for i in range(total)]
+            Y = [[Poly.atom('Y%d_%d' % (i, c)) for c in range(3)] for i in range(total)]
+            V = [Poly.atom('V%d' % i) for i in range(total)]
+            one = Poly.const(1)
+            S = lambda rows: [[Sym(x) for x in r] for r in rows]
+            # (a) weighted points in, the other two views out
+            o = fresh()
+            setp(o, 'ctrlptsw', S([[X[i][c] * W[i] for c in range(3)] + [W[i]] for i in range(total)]))
+            why = view_is(o, 'after ctrlptsw = Pw', X, W)
+            # (b) new points, weights kept
+            if why is None:
+                setp(o, 'ctrlpts', S(Y))
+                why = view_is(o, 'after ctrlpts = Y on a shape with weights W', Y, W)
+            # (c) new weights, points kept
+            if why is None:
+                setp(o, 'weights', [Sym(v) for v in V])
+                why = view_is(o, 'after weights = V on a shape with points Y', Y, V)
+            # (e) lists obtained from the getters, edited in place, assigned back
+            if why is None:
+                lst = getp(o, 'ctrlpts')
+                lst[1] = [Sym('Z%d' % c) for c in range(3)]
+                setp(o, 'ctrlpts', lst)
+                Y2 = [list(r) for r in Y]
+                Y2[1] = [Poly.atom('Z%d' % c) for c in range(3)]
+                why = view_is(o, 'after editing the list returned by the ctrlpts getter in place and assigning it back', Y2, V)
+            if why is None:
+                lw = getp(o, 'weights')
+                lw[2] = Sym('U')
+                setp(o, 'weights', lw)
+                V2 = list(V)
+                V2[2] = Poly.atom('U')
+                why = view_is(o, 'after editing the list returned by the weights getter in place and assigning it back', Y2, V2)
+            # (b'), (c') the same with no read of a view in between (the cached views are empty then)
+            if why is None:
+                o3 = fresh()
+                setp(o3, 'ctrlptsw', S([[X[i][c] * W[i] for c in range(3)] + [W[i]] for i in range(total)]))
+                setp(o3, 'ctrlpts', S(Y))
+                why = view_is(o3, 'after ctrlptsw = Pw, then ctrlpts = Y with no view read in between', Y, W)
+            if why is None:
+                o4 = fresh()
+                setp(o4, 'ctrlptsw', S([[X[i][c] * W[i] for c in range(3)] + [W[i]] for i in range(total)]))
+                setp(o4, 'weights', [Sym(v) for v in V])
+                why = view_is(o4, 'after ctrlptsw = Pw, then weights = V with no view read in between', X, V)
+            # (d) a fresh shape: unit weights
+            if why is None:
+                o2 = fresh()
+                setp(o2, 'ctrlpts', S(Y))
+                why = view_is(o2, 'after ctrlpts = Y on a fresh shape', Y, [one] * total)
+        except Violation as v:
+            why = '%s %s' % (v.msg, v.where())
+        except Unsupported as ex:
+            raise AnalysisError('%s: interpreter met an unsupported construct: %s' % (key, ex))
+        ci = m.cls('NURBS', cname)
+        run.ob(rule, key, why is None, 'the three views agree after every assignment, position by position' if why is None else why, 'geomdl/NURBS.py:%d in NURBS.%s' % (ci.node.lineno, cname))
